@@ -68,9 +68,12 @@ Qed.
 
 (** structure of the source: the DEFLATE case reads through io.LimitReader *)
 Open Scope string_scope.
+(* every read of the inflated stream goes through one io.LimitReader: the case makes exactly these calls, in this order
+   (a second reader or a second ReadAll -- a fallback path, a retry -- breaks this obligation) *)
 Definition deflate_case_limited (seq : list stmtfact) : bool :=
   existsb (fun f => stmtkind_eqb (sfk f) SSwitch &&
-     existsb (fun c => strs_eqb (fst c) ["urn:oasis:names:tc:SAML:2.0:bindings:URL-Encoding:DEFLATE"] && smem "io.LimitReader" (snd c) && smem "io.ReadAll" (snd c)) (cases f)) seq.
+     existsb (fun c => strs_eqb (fst c) ["urn:oasis:names:tc:SAML:2.0:bindings:URL-Encoding:DEFLATE"] &&
+                       strs_eqb (snd c) ["bytes.NewBuffer"; "flate.NewReader"; "io.LimitReader"; "io.ReadAll"; "r.Close"]) (cases f)) seq.
 Close Scope string_scope.
 Lemma inflate_structure : deflate_case_limited inflateAndDecode_seq = true /\ (0 < ci_MaxInflatedSize <= 64 * 1024 * 1024)%Z.
 Proof. split; [vm_compute; reflexivity|unfold ci_MaxInflatedSize; lia]. Qed.
